@@ -79,6 +79,18 @@ class Prov:
                 self.defs[(place["l"], ("deep", None))].append(at)
 
     # ------------------------------------------------------------------
+    def _ensure_field_key(self, fkey):
+        """merge whole-local definitions into a field key's definition list (once)."""
+        if not hasattr(self, "_own_field_defs"):
+            self._own_field_defs = {}
+        if fkey in self._own_field_defs:
+            return
+        self._own_field_defs[fkey] = list(self.defs[fkey])
+        whole = self.defs.get((fkey[0], None), [])
+        merged = list(self.defs[fkey]) + [d for d in whole if d not in self.defs[fkey]]
+        self.defs[fkey] = merged
+        self._reaching = None   # recompute with the merged lists
+
     def _compute_reaching(self):
         """Reaching definitions for keys with more than one def."""
         multi = {k for k, v in self.defs.items() if len(v) > 1 or (k[0] <= self.argc and k[0] != 0 and k[1] is None)}
@@ -162,9 +174,30 @@ class Prov:
     def place(self, pl, at, depth=0, seen=frozenset()):
         l = pl["l"]
         proj = pl.get("p", [])
-        # field-sensitive first
-        if proj and proj[0]["k"] == "field" and (l, proj[0]["i"]) in self.defs:
-            base = self._local_key((l, proj[0]["i"]), at, depth, seen)
+        # field-sensitive first: a field with its own assignments is defined by those AND by whole-local definitions
+        if proj and proj[0]["k"] == "field" and (l, proj[0]["i"]) in self.defs and l not in self.mut_borrowed:
+            fkey = (l, proj[0]["i"])
+            self._ensure_field_key(fkey)
+            ds = self.reaching(fkey, at)
+            own = set(self._own_field_defs.get(fkey, ()))
+            outs = []
+            for d in ds:
+                if d[0] == "param":
+                    outs.append(self.apply_proj(("param", l, self.names.get(l, f"_{l}")), [proj[0]], at, depth, seen))
+                elif d in own:
+                    outs.append(self.def_expr(d, fkey, depth + 1, seen))
+                else:
+                    outs.append(self.apply_proj(self.def_expr(d, (l, None), depth + 1, seen), [proj[0]], at, depth, seen))
+            uniq = []
+            for o in outs:
+                if o not in uniq:
+                    uniq.append(o)
+            if len(uniq) == 1:
+                base = uniq[0]
+            elif not uniq:
+                base = self.apply_proj(self._local_key((l, None), at, depth, seen), [proj[0]], at, depth, seen)
+            else:
+                base = ("phi", tuple(uniq))
             rest = proj[1:]
         else:
             base = self._local_key((l, None), at, depth, seen)
